@@ -1,4 +1,5 @@
 """FIX Protocol Unit Tester."""
+from decimal import Decimal
 from math import isnan, nan
 from unittest.mock import AsyncMock, MagicMock
 
@@ -8,6 +9,14 @@ from asyncfix.journaler import Journaler
 from asyncfix.protocol import FIXProtocol44, FIXSchema
 from asyncfix.protocol.common import FExecType, FOrdStatus
 from asyncfix.protocol.order_single import FIXNewOrderSingle
+
+
+def _fix_float(value: float) -> str:
+    """Float as FIX writes it: no exponent notation (1e-05 -> 0.00001)."""
+    s = str(value)
+    if "e" in s:
+        s = format(Decimal(s), "f")
+    return s
 
 
 class FIXTester:
@@ -360,7 +369,7 @@ class FIXTester:
         else:
             assert cum_qty <= order.qty
             assert cum_qty >= 0
-        m[FTag.CumQty] = cum_qty
+        m[FTag.CumQty] = _fix_float(cum_qty)
 
         if isnan(leaves_qty):
             leaves_qty = order.leaves_qty
@@ -368,7 +377,7 @@ class FIXTester:
             assert leaves_qty >= 0
             assert leaves_qty <= order_qty
 
-        m[FTag.LeavesQty] = leaves_qty
+        m[FTag.LeavesQty] = _fix_float(leaves_qty)
         assert (
             cum_qty + leaves_qty <= order_qty
         ), f"cum_qty[{cum_qty}] + leaves_qty[{leaves_qty}] <= order_qty[{order_qty}]"
@@ -380,7 +389,7 @@ class FIXTester:
                 exec_type == FExecType.TRADE
             ), "Only applicable to exec_type=F (trade)"
             assert last_qty > 0
-            m[FTag.LastQty] = last_qty
+            m[FTag.LastQty] = _fix_float(last_qty)
             assert (
                 round(last_qty - (cum_qty - order.cum_qty), 3) == 0
             ), "Probably incorrect Trade qty"
@@ -399,7 +408,7 @@ class FIXTester:
         order.set_instrument(m)
 
         order.set_price_qty(m, price, order_qty)
-        m[FTag.AvgPx] = avg_price
+        m[FTag.AvgPx] = _fix_float(avg_price)
 
         order.set_account(m)
 
